@@ -219,7 +219,7 @@ Definition tok_acc1 (t : ltok) (g : list piece) : Prop :=
   match tvalue t with
   | Some v => (exists sp, get_out (lws O g) (outs tr) = Some (sp, v)) \/
               (exists sy, v = VSym sy /\ exc sy = false /\ key sy = join_sp (map ptext g) /\ Forall wordp g /\
-                          tstring t = join_sp (map ptext g) /\ Forall unm_p g)
+                          tstring t = join_sp (map ptext g) /\ Forall unm_p g /\ mk_key O (key sy) = Ok (key sy))
   | None => False
   end.
 
@@ -253,7 +253,10 @@ Proof.
     + destruct ru as [|t0 l]; [contradiction | exact Hst].
     + destruct (join_words_head O (map ptext gu) Hww Hne') as [c0 [r0 [Ej Hc0]]]. exists c0, r0. cbn [tstring]. split; assumption.
     + apply MJoin.
-    + right. exists sy. repeat split; assumption.
+    + right. exists sy. assert (Hmk : mk_key O (key sy) = Ok (key sy)).
+      { unfold mk_symbol in Em. destruct (mk_key O (join_sp (map ptext gu))) as [k'| | | | |] eqn:Ek; try discriminate.
+        cbn [obind] in Em. inversion Em; subst sy. cbn [key] in *. rewrite Hk. rewrite Hk in Ek. exact Ek. }
+      repeat split; assumption.
 Qed.
 
 Lemma build_unknown_acc : forall (ts : list ltok) gs unm gu r,
@@ -377,7 +380,7 @@ Definition kw_acc (k : kw) (g : list piece) : Prop :=
   exists name, In (name, VKw k) keyword_adds /\ lws O g = lwords O name.
 Definition sym_acc (s : sym) (g : list piece) : Prop :=
   (exists name, In (name, VSym s) (flat_map (entry_adds O) T) /\ lws O g = lwords O name) \/
-  (exc s = false /\ key s = join_sp (map ptext g) /\ Forall wordp g /\ g <> [] /\ Forall unm_p g).
+  (exc s = false /\ key s = join_sp (map ptext g) /\ Forall wordp g /\ g <> [] /\ Forall unm_p g /\ mk_key O (key s) = Ok (key s)).
 
 Lemma stored_in_table g sp v : get_out (lws O g) (outs tr) = Some (sp, v) ->
   In (sp, v) (keyword_adds ++ flat_map (entry_adds O) T) /\ lwords O sp = lws O g.
@@ -414,7 +417,7 @@ Proof.
   intros [Hne [Hs [_ [Hmo Hv]]]]. split; [exact Hne|]. split; [exact Hs|]. split; [exact Hmo|].
   destruct (tvalue t) as [[k|s]|]; [| |exact Hv].
   - destruct Hv as [[sp G]|[sy [E _]]]; [apply (value_kw g sp k G) | discriminate].
-  - destruct Hv as [[sp G]|[sy [E [He [Hk [Hw [_ Hun]]]]]]]; [apply (value_sym g sp s G)|].
+  - destruct Hv as [[sp G]|[sy [E [He [Hk [Hw [_ [Hun Hmk]]]]]]]]; [apply (value_sym g sp s G)|].
     inversion E; subst sy. right. repeat split; try assumption.
 Qed.
 
